@@ -39,6 +39,13 @@ def parser_jobs(prop, tier, wd, tags):
 
 def run(prop, tier, seed, wd, t0):
     jobs, info = parser_jobs(prop, tier, wd, [prop])
+    try:
+        import literals
+        lj = [j for j in literals.jobs(tier, prop) if 'h_lit_dec' in j.name or 'h_lit_value' in j.name]
+        for j in lj: j.tags = [prop, 'C20']
+        jobs += lj     # static rule: every integer literal is below 2^31-1 (also in the id+int / id-int sugar)
+    except ImportError:
+        pass
     cmp_ = parseb.compare_with_comment(os.path.join(fw.VERIF, 'spec', 'grammar.ll1'), os.path.join(fw.REPO, 'Compiler/src/parse.cpp'))
     def extra(out):
         cov = {'grammar_productions': info['productions'], 'grammar_comment_vs_spec': cmp_}
